@@ -182,6 +182,13 @@ def main():
     c.cov["stream_wall_s"] = round(time.time() - t0, 1)
     c.cov["harness_note"] = stderr.strip().split("\n")[-1][:300]
 
+    # pipeline runs that panicked inside a compiler pass carry the IR the chains received: ask the models
+    run_ir = [r for r in rows if not r[0]["id"].startswith(("ir/", "passes-yaml/", "veneers-yaml/")) and r[0].get("extra")]
+    run_preds = {}
+    if run_ir:
+        replies = drv(["c04pred " + r[0]["extra"] for r in run_ir])
+        for r, rep in zip(run_ir, replies):
+            run_preds[r[0]["id"]] = dict(kv.split("=", 1) for kv in rep.split(" ") if "=" in kv)
     # predictions for the IR-level cases
     ir_rows = [r for r in rows if r[0]["id"].startswith("ir/") and r[0].get("extra")]
     preds = {}
@@ -230,6 +237,15 @@ def main():
                 if mv in ("ok", "err") and not (mk == "mfromast" and mv == "err"):
                     model_contradicted.append((res, case, op, frame, msg, mv))
                     continue
+            rp = run_preds.get(rid)
+            if rp is not None and rp.get("wf") == "true":
+                m = re.search(r"internal/ast/compiler\.\(?\*?(\w+)\)?\.", frame)
+                mpass = rp.get("m:" + m.group(1)) if m else None
+                chains = [v for k, v in rp.items() if k.startswith("mchain:")]
+                c.cov["disagreements_checked"] += 1
+                if mpass in ("ok", "err") and chains and all(v in ("ok", "err") for v in chains):
+                    model_contradicted.append((res, case, "run:" + (m.group(1) if m else "?"), frame, msg, "ok/err in every modelled chain"))
+                    continue
             route = route_of(rid, note)
             text = "route=%s outcome=%s frame=%s msg=%s op=%s id=%s note=%s" % (route, outcome, frame, msg, op, rid, note)
             classes.setdefault((route.split(":")[0], outcome, frame, msg), []).append((text, res, case))
@@ -253,13 +269,14 @@ def main():
              [(x[2], x[3], x[4]) for x in contradicted[:5]])
 
     seen_ops = set()
-    for res, case, op, frame, msg, mv in model_contradicted:
-        if (op, frame, msg) in seen_ops or len(seen_ops) >= 5:
+    for res, case, op, frame, msg, mv in sorted(model_contradicted, key=lambda x: not x[2].startswith("run:")):
+        cat = "run" if op.startswith("run:") else "ir"
+        if (op, frame, msg, cat) in seen_ops or len([1 for x in seen_ops if x[3] == cat]) >= 3:
             continue
-        seen_ops.add((op, frame, msg))
+        seen_ops.add((op, frame, msg, cat))
         if case and case.get("kind") == "ir":
             case = dict(case, op=op)
-        small = shrink(hb, case)[0] if case else None
+        small = shrink(hb, case, want=(res["outcome"], frame, msg) if op.startswith("run:") else None)[0] if case else None
         c.violation({"kind": "model-contradicted", "what": "the Lean model of `%s` returns `%s` on this well-formed IR (driver: c04pred) but the real code panics: the code has a panic the model does not have" % (op, mv),
                      "op": op, "frame": frame, "msg": msg, "case": small or case, "vir": res.get("extra", "")[:20000], "stack": res.get("stack", "")[:3000]})
     c.oblige("no panic of the real code on a well-formed IR where the Lean model of the same pass / chain / FromAST does not panic", not model_contradicted,
